@@ -27,7 +27,7 @@ CROSS = {
     "C02-A4": ["C03"], "C04-B4": ["C07"], "C05-B4": ["C12"], "C07-B4": ["C16", "C01"], "C01-A4": ["C07"], "C11-A4": ["C10"], "C11-B4": ["C02"],
     "C08-A4": ["C01"],
     # wave 5
-    "C01-B5": ["C11"], "C04-B5": ["C12"], "C11-A5": ["C12"], "C11-B5": ["C10"], "C16-B5": ["C01"], "C14-B5": ["C01", "C16"], "C08-A5": ["C01"], "C08-B5": ["C16"],
+    "C01-A5": ["C13"], "C13-B5": ["C01"], "C01-B5": ["C11"], "C04-B5": ["C12"], "C11-A5": ["C12"], "C11-B5": ["C10"], "C16-B5": ["C01"], "C14-B5": ["C01", "C16"], "C08-A5": ["C01"], "C08-B5": ["C16"],
     "C07-A5": ["C01"], "C07-B5": ["C13"], "C09-B5": ["C01"],
 }
 
